@@ -3,7 +3,7 @@ CONSTANTS
   MinItems = 0
   NC = 3
   L = 4
-  MaxItems = 4
+  MaxItems = 3
   MaxPerChrom = 2
   IPS = {1, 2}
   ZoomLists = "b"
